@@ -81,7 +81,7 @@ def diag_of(effect):
     ctxs = None
     if isinstance(ctx, AdtVal) and ctx.variant is not None:
         ctxs = lab(ctx.fields[0].val) if 0 in ctx.fields else "None"
-    return {"kind": kind, "range": range_label(rng), "related": rels, "where": effect[3], "context": ctxs, "message": lab(out.get("message"))}
+    return {"kind": kind, "range": range_label(rng), "related": rels, "where": effect[3], "built_at": v.site, "context": ctxs, "message": lab(out.get("message"))}
 
 
 def range_label(v):
